@@ -181,6 +181,8 @@ StoreStep0(st, e) ==
   CASE e.ev = "ext_set" -> [st EXCEPT !.res[e.r] = e.v]
     [] e.ev = "res_set" -> IF e.r \in Ress(st) THEN [st EXCEPT !.res[e.r] = e.v] ELSE st
     [] e.ev = "sess_start" -> [st EXCEPT !.estk = <<>>, !.queue = {}]
+    [] e.ev = "sess_end" ->        \* the session end reports the actual contents: continue from them
+         IF "res" \in DOMAIN e /\ DOMAIN e.res = DOMAIN st.res THEN [st EXCEPT !.res = [r \in DOMAIN st.res |-> e.res[r]]] ELSE st
     [] e.ev = "bu_begin" -> [st EXCEPT !.queue = {}]
     [] e.ev \in {"root_panic", "bu_panic"} -> [st EXCEPT !.estk = <<>>, !.queue = {}]
     [] e.ev = "exec_start" ->
